@@ -623,6 +623,7 @@ def cmd_stackeffect(args, out):
     if ops is None:
         ops = sorted(set(opcode.opmap.values()))
     res = {}
+    noarg = {}
     argl = args["args"]
     for op in ops:
         row = []
@@ -638,12 +639,19 @@ def cmd_stackeffect(args, out):
                 v = "X"
             row.append(v)
         res[str(op)] = row
+        # the operand-less call form, whatever the table says about the opcode (3.12's SETUP_* / POP_BLOCK pseudo-instructions
+        # are >= HAVE_ARGUMENT yet only accepted without an operand)
+        try:
+            noarg[str(op)] = dis.stack_effect(op)
+        except (ValueError, OverflowError, SystemError, TypeError):
+            noarg[str(op)] = "X"
     out.write(
         json.dumps(
             {
                 "version": list(sys.version_info[:3]),
                 "args": argl,
                 "effects": res,
+                "noarg": noarg,
                 "opname": list(opcode.opname),
                 "HAVE_ARGUMENT": opcode.HAVE_ARGUMENT,
                 "hasarg": sorted(getattr(opcode, "hasarg", [])),
